@@ -82,7 +82,7 @@ func genStorage(r *kit.Rand, tier kit.Tier) stCase {
 		case 1:
 			c.Ops = append(c.Ops, stOp{K: "r", Addr: addr(l), Len: l})
 		case 2:
-			c.Ops = append(c.Ops, stOp{K: "restart"})
+			c.Ops = append(c.Ops, stOp{K: "restart", Cut: r.Intn(2)})
 		case 3:
 			c.Ops = append(c.Ops, stOp{K: "save-fail", Cut: r.Intn(64)})
 		default:
@@ -245,6 +245,17 @@ func execStorage(c stCase, _ *kit.Env) kit.Outcome {
 			}
 
 			ns := mem.NewStorageWithUnitSize(c.Cap, c.Unit)
+
+			if op.Cut%2 == 1 {
+				// restore in place: the live storage is written after the save (also
+				// in a unit the checkpoint does not contain) and must revert completely
+				ns = st
+
+				for _, a := range []uint64{0, c.Cap / 2, c.Cap - 1} {
+					_ = st.Write(a, []byte{0xEE})
+				}
+			}
+
 			if err := ns.LoadCheckpoint(&buf); err != nil {
 				return fail(i, "load", "LoadCheckpoint: %v", err)
 			}
